@@ -1826,3 +1826,13 @@ def m_ioerr(c):
 @M.regp(r"^std::error::Error::|^core::error::Error::")
 def m_error(c):
     return c.ret(c.fresh())
+
+
+@M.reg("core::intrinsics::discriminant_value", "core::mem::discriminant")
+def m_discriminant_value(c):
+    v = deref(c.I, c.st, c.args[0])
+    if isinstance(v, VAdt) and c.I.F.adts.get(v.path, {}).get("kind") == "enum":
+        if v.variant is not None:
+            return c.ret(VInt(Lin.const(c.I.discr_of_variant(v.path, v.variant))))
+        return c.ret(VInt(Lin.atom(c.I.discr_atom(v))))
+    return c.ret(c.fresh())
